@@ -26,7 +26,16 @@ Inductive case : Type :=
    list, [ds] = (algorithm, buffer length) of the entries as decoded by the harness from the bytes;
    res = per measured algorithm (SHA1, SHA256) the (address, length) of the ibbDigest reference,
    None = no measurement was emitted for it *)
-| CDigestRefs (first : Z) (ds : digest_shape) (res : list (option range)).
+| CDigestRefs (first : Z) (ds : digest_shape) (res : list (option range))
+(* A caller's session with the mappers: [h0] the arrays the caller owns (every element, spare
+   capacity included); per step what was returned (ignored for MWrite); [hfinal] every array --
+   the caller's and each answer, in the order they were returned ([] for a failed call) -- as
+   re-read by the harness AFTER the whole session *)
+| CPmmSession (h0 : heap) (ops : list (mop * obs (list range))) (hfinal : heap)
+(* ONE NodeVisitor object, several Runs (other trees, other AddOffset, other fallback setting,
+   sub-trees): per Run the tree, the rows NameToRangesMap returns for it, and the ranges handed
+   to the callback *)
+| CWalkSession (runs : list (vrun * obs (list range))).
 
 Definition range_eqb (a b : range) : bool := (fst a =? fst b) && (snd a =? snd b).
 Definition ranges_eqb := list_eqb range_eqb.
@@ -35,6 +44,14 @@ Definition orange_eqb (a b : option range) : bool :=
   match a, b with
   | Some x, Some y => range_eqb x y
   | None, None => true
+  | _, _ => false
+  end.
+
+(* element-wise comparison of two lists of different types (same length required) *)
+Fixpoint list_match {A B} (f : A -> B -> bool) (a : list A) (b : list B) : bool :=
+  match a, b with
+  | [], [] => true
+  | x :: a', y :: b' => f x y && list_match f a' b'
   | _, _ => false
   end.
 
@@ -58,6 +75,15 @@ Definition check (c : case) : bool :=
   | CWalk t rm fb r => obs_match ranges_eqb r (walk rm fb t)
   | CVolumeOf size nodes q res => obs_match ranges_eqb res (volume_of_one size nodes q)
   | CDigestRefs first ds res => list_eqb orange_eqb res (pcr0_digest_refs first ds)
+  | CPmmSession h0 ops hfinal =>
+      let (res, h) := msession h0 (map fst ops) in
+      list_match (fun m o => match m with
+                           | Some out => obs_match ranges_eqb (snd o) out
+                           | None => true
+                           end) res ops
+      && list_eqb ranges_eqb h hfinal
+  | CWalkSession runs =>
+      list_match (fun m o => obs_match ranges_eqb (snd o) m) (vsession v_fresh (map fst runs)) runs
   end.
 
 Definition mismatches := mismatches_by check.
